@@ -283,6 +283,12 @@ class AbstractGinGameState:
             random.shuffle(new_deck)
             self.deck = new_deck
             self.discard = []
+            # the discards are back in the stock: forget where they were
+            self.public_hud = {
+                card: loc
+                for card, loc in self.public_hud.items()
+                if loc not in {RummyHud.TOP_OF_DISCARD, RummyHud.DISCARD}
+            }
         return False
 
     def decide_knock(
